@@ -261,11 +261,19 @@ def gen_full(rng):
     for i in range(rng.randint(3, 10)):
         r = rng.random()
         if r < 0.35:
-            ops += [f"open 3 0 0 {hx(b'n%d' % i)} 2", f"write 3 {rng.choice([1, dbs, 10 * dbs, 80 * dbs, 200 * dbs])} {i}", "close 3"]
+            sz = rng.choice([1, dbs, 10 * dbs, 80 * dbs, 200 * dbs])
+            ops += [f"open 3 0 0 {hx(b'n%d' % i)} {rng.choice([2, 3])}", f"write 3 {sz} {i}"]
+            if rng.random() < 0.5:
+                # a (possibly short) write followed by work elsewhere in the file through the same handle
+                ops += [f"seek 3 {rng.choice([0, 1, dbs, 3 * dbs + 5])}", "read 3 100"]
+                if rng.random() < 0.5: ops.append(f"write 3 {rng.choice([1, 10, dbs])} {i + 40}")
+            ops.append("close 3")
         elif r < 0.55:
             ops.append(f"mkdir 0 0 {hx(b'd%d' % i)}")
         elif r < 0.7:
-            ops += [f"open 3 0 0 {hx(b'old')} 3", "seek 3 5000", f"write 3 {rng.choice([dbs, 100 * dbs])} 1", "close 3"]
+            ops += [f"open 3 0 0 {hx(b'old')} 3", "seek 3 5000", f"write 3 {rng.choice([dbs, 100 * dbs])} 1"]
+            if rng.random() < 0.5: ops += [f"seek 3 {rng.choice([0, 100, 4 * dbs])}", "read 3 600"]
+            ops.append("close 3")
         elif r < 0.85:
             ops += [f"open 3 0 0 {hx(b'filler')} 3", f"trunc 3 {nd * dbs + rng.choice([1, dbs, 75 * dbs, 300 * dbs])}", "close 3"]
         else:
@@ -532,6 +540,35 @@ def image_ops(kids, rng, dirc=False, path="@IMG@", nreads=3, dev="dd"):
         else:
             ops += nav + [f"open 1 0 0 {hx(p[-1])} 1", f"chdir 0 0 {hx(p[-1])}"]
     ops += ["toroot 0 0", "free 0 0", "unmount 0 0", "closedev 0"]
+    return ops
+
+def gen_overappend(rng, nops=None):
+    """a file of more than 72 (or 144) data blocks; one read+write handle seeks somewhere into the file (in particular into
+    the region listed by the last extension block), overwrites in place up to the end and keeps writing so that blocks
+    are appended; then the file is checked sequentially and by seeks into every region, before and after remount"""
+    dostype = rng.randrange(6)
+    dbs = 512 if dostype & 1 else 488
+    ops = prologue(dostype, clock=(2017, 6, 5, 4, 3, 2))
+    nb = rng.choice([74, 80, 100, 145, 150, 160])
+    size = nb * dbs - rng.choice([0, 0, 1, 200])
+    ops += [f"open 1 0 0 {hx(b'grow')} 2", f"write 1 {size} 21", "close 1", f"open 2 0 0 {hx(b'grow')} 3"]
+    for _ in range(rng.randint(1, 3)):
+        start_blk = rng.choice([rng.randrange(nb), max(0, nb - rng.randint(2, 30)), 72, 73, 144 if nb > 144 else 71])
+        start = min(size, start_blk * dbs + rng.choice([0, 0, 17]))
+        ops.append(f"seek 2 {start}")
+        if rng.random() < 0.3: ops.append(f"read 2 {rng.choice([10, dbs])}")
+        ln = (size - start) + rng.choice([1, dbs, 3 * dbs + 9, 30 * dbs]) if rng.random() < 0.8 else rng.choice([dbs, 5 * dbs])
+        ops.append(f"write 2 {max(1, ln)} {rng.randrange(50, 90)}")
+        ops.append("stat 2")
+        size = max(size, start + max(1, ln)); nb = (size + dbs - 1) // dbs
+    probes = [0, 71, 72, 73, 80, nb - 2, nb - 1, 144, 145]
+    for b in probes:
+        if 0 <= b < nb: ops += [f"seek 2 {b * dbs}", f"read 2 {dbs + 3}"]
+    ops += ["close 2", f"open 3 0 0 {hx(b'grow')} 1", "read 3 400000", "close 3"]
+    ops += ["unmount 0 0", "closedev 0", "opendev 0 0", "mount 0 0 0", f"open 3 0 0 {hx(b'grow')} 1"]
+    for b in probes[::-1]:
+        if 0 <= b < nb: ops += [f"seek 3 {b * dbs}", f"read 3 {dbs + 3}"]
+    ops += ["close 3"] + epilogue()
     return ops
 
 def gen_seekread(rng, nops=None):
